@@ -288,3 +288,56 @@ func runC03Helpers(c *Ctx) {
 		r.Traces++
 	}
 }
+
+func init() {
+	sessionChecks["c11"] = func(c *Ctx, in, hin map[string]string, sc SessCfg, steps []string, cmp *SessCmp) {
+		// MaxEventLength = advertised line length (512 default) - CRLF - (4 + nick + user + host estimates)
+		maxlen := 395
+		for _, d := range cmp.Res.Getters {
+			for _, l := range d {
+				if strings.HasPrefix(l, "maxlen=") {
+					fmt.Sscan(l[len("maxlen="):], &maxlen)
+				}
+			}
+		}
+		var given []string
+		var texts []string
+		for _, st := range steps {
+			if st[0] != 'C' {
+				continue
+			}
+			f := strings.Split(st[1:], "\x00")
+			switch f[0] {
+			case "Join", "List":
+				given = append(given, f[1:]...)
+			case "Message", "Notice", "Action":
+				texts = append(texts, f[2])
+			}
+		}
+		var sent []string
+		for _, l := range cmp.ImplW {
+			e := girc.ParseEvent(l)
+			if e == nil {
+				continue
+			}
+			if (e.Command == "JOIN" || e.Command == "LIST") && len(e.Params) == 1 {
+				names := strings.Split(e.Params[0], ",")
+				sent = append(sent, names...)
+				if len(l) > maxlen && len(names) > 1 {
+					c.R.Violation("c11.join_fits", hin, fmt.Sprintf("%d bytes", len(l)), fmt.Sprint(maxlen), "a JOIN/LIST line with several channels exceeds MaxEventLength")
+				}
+			}
+			if (e.Command == "PRIVMSG" || e.Command == "NOTICE") && len(e.Params) == 2 && !strings.HasPrefix(e.Params[1], "\x01VERSION") {
+				if len(l) > maxlen && maxlen > 60 && sc.GlobalFormat == false && !hasCodes(l) {
+					c.R.Violation("c11.line_fits", hin, fmt.Sprintf("%d bytes", len(l)), fmt.Sprint(maxlen), "a PRIVMSG/NOTICE line exceeds MaxEventLength")
+				}
+				if e.Params[1] == "" {
+					c.R.Violation("c11.empty_piece", hin, l, "", "an empty message piece was sent")
+				}
+			}
+		}
+		if fmt.Sprint(sent) != fmt.Sprint(given) && len(given) > 0 {
+			c.R.Violation("c11.join_all_once", hin, fmt.Sprintf("%d sent", len(sent)), fmt.Sprintf("%d given", len(given)), "Join/List did not send every given channel exactly once in order")
+		}
+	}
+}
